@@ -287,7 +287,9 @@ class timemodel(_coreiterative):
             # specific steps to save results and go back to Qn: all save times reached by this step
             while (isave < nsave) and (self.Qn.time+mindtloc >= tsave[isave]):
                     # compute smaller step with same integrator
-                    self.step(Qnn, tsave[isave]-self.Qn.time)
+                    dtsave = tsave[isave]-self.Qn.time
+                    if dtsave > 0.: # a save time equal to the current time is the current state (implicit steps divide by dt)
+                        self.step(Qnn, dtsave)
                     Qnn.it = self._itstart + self._nit
                     results.append(Qnn)
                     if verbose:
